@@ -144,21 +144,24 @@ def run(prog, R):
     if nb_ is None or nb_.local_name(1) != "kind":
         R.ob("ANCHOR", "oq3_parser::shortcuts::n_attached_trivias(kind, ..)", False)
     else:
-        vs = {n for n, d in prog.enum_variants(SK) or []}
-        bad = []
-        for K in sorted(kinds):
-            if K not in vs:
-                bad.append(K + " (kind not resolved)")
-                continue
+        vs = [n for n, d in prog.enum_variants(SK) or []]
+        # evaluated for every SyntaxKind variant: the kinds with a non-zero answer must not be kinds the grammar
+        # completes (on this tree only the unused CONST has an arm); a completion whose kind is a parameter
+        # (`m.complete(p, node_kind)`) is not resolved here, so any non-zero arm besides CONST is then reported
+        nz = []
+        for K in vs:
             se = SymExec(prog, nb_, max_visits=1, max_paths=500)
             env = se.init_env()
             env[1] = ("adt", SK + "::" + K, ())
             rs = {deep_strip(p.env.get(0)) for p in se.paths(env) if "__diverged__" not in p.env}
             if rs != {("c", "usize", 0)}:
-                bad.append(K)
+                nz.append(K)
+        resolved = kinds - {"?"}
+        bad = sorted(set(nz) & resolved) + (sorted(set(nz) - {"CONST"} - resolved) if "?" in kinds else [])
         R.ob("C16.6-no-leading-trivia-attachment", "n_attached_trivias", not bad, nb_.at,
-             f"0 for all {len(kinds)} node kinds the grammar completes" if not bad else
+             f"0 for all {len(resolved)} node kinds the grammar completes (non-zero only for {nz})" if not bad else
              f"leading trivia can be attached to nodes of kind {bad}: a comment that ends the previous statement's line becomes part of this statement's text in a sequence, while the statement parsed on its own does not contain it")
+    R.premises(prog, "C16.0-line-tokens-premise", ["C15:C15.4-", "C15:C15.2-keyword-prefix", "C01:C01.2-step-counter"], "statements on separate lines stay separate tokens (line-oriented tokens end at the line feed, C15.4 / C15.2) and the parser's look-ahead budget is per token, not per input (C01.2), so that a long sequence of clean statements parses like its parts")
     # ---- C16.5 an assignment statement that has consumed its terminating semicolon ends there: in expr_bp no path
     # from `p.expect(SEMICOLON)` (statement-level assignment) leads back to the operator loop's `current_op`
     eb = prog.body("oq3_parser::grammar::expressions::expr_bp")
